@@ -7,7 +7,7 @@ From stdpp Require Import gmap list.
 From Coq Require Import NArith ZArith.
 From VFS Require Import Core.Types Core.Prog Core.Calls Spec.Tree Base.MemFS Base.Handles Base.Store Layer.VfsPath
   Proofs.MemProofs Proofs.MemCalls Proofs.MemPublic Proofs.ConcProofs Proofs.Composite Proofs.ErrPaths Proofs.Leaves
-  Proofs.WalkProofs Proofs.RemoveAll Proofs.CopyFile Proofs.OvlProofs Proofs.OvlAppend Proofs.SortNames Proofs.CopyDir.
+  Proofs.WalkProofs Proofs.RemoveAll Proofs.CopyFile Proofs.OvlProofs Proofs.OvlAppend Proofs.SortNames Proofs.CopyDir Proofs.CopyDirSame.
 
 Notation mstate := (gmap (list (list N)) memfile).
 
@@ -109,6 +109,23 @@ Theorem C11_copy_dir_across_instances : forall (lg : list (nat * fscall)) (ft : 
     (forall q, below p' q -> is_Some (s0' !! q) -> exists y, is_Some (s1 !! y) /\ below p y /\ q = tr p p' y).
 Proof. exact copy_dir_across. Qed.
 
+(** ... and WITHIN one MemoryFS instance (the common use), source and destination in the same map, the destination
+    not inside the source (the crate, like cp -r, would otherwise copy for ever): the same exact copy and count;
+    every entry outside the new subtree keeps its type and bytes (abs-level: the reads stamp access times) *)
+Theorem C11_copy_dir_within_instance : forall (lg : list (nat * fscall)) (ft : option (nat * nat)) (s : mstate)
+    (hs : list hstate) (p p' : path) (fuel : nat),
+  wf s -> is_dir s p ->
+  p' <> [] -> is_dir s (removelast p') -> s !! p' = None -> ~ below p p' ->
+  length (desc s p) < fuel ->
+  exists s' hs',
+    run bhandler (vp_copy_dir fuel mv p mv p') (mstore s hs lg ft) =
+      (mstore s' hs' lg ft, Ok (N.of_nat (length (desc s p)))) /\
+    wf s' /\ is_dir s' p' /\
+    (forall y, is_Some (s !! y) -> below p y -> absf <$> (s' !! tr p p' y) = absf <$> (s !! y)) /\
+    (forall q, q <> p' -> ~ below p' q -> absf <$> (s' !! q) = absf <$> (s !! q)) /\
+    (forall q, below p' q -> is_Some (s' !! q) -> exists y, is_Some (s !! y) /\ below p y /\ q = tr p p' y).
+Proof. exact copy_dir_same. Qed.
+
 (** the listing of a directory depends only on which entries exist (what lets the walk ignore the access-time
     stamps of the files already copied) *)
 Theorem C11_listing_ignores_values : forall (s : mstate) (x : path) (f g : memfile) (p : path),
@@ -149,3 +166,4 @@ Print Assumptions C11_move_file_across_instances.
 Print Assumptions C11_copy_dir_across_instances.
 Print Assumptions C11_copy_dir_example.
 Print Assumptions C11_listing_ignores_values.
+Print Assumptions C11_copy_dir_within_instance.
